@@ -74,6 +74,11 @@ def corpus():
                         ['call', 1, None], ['adv', 10], ['fin', 1]]))
     out.append(G.mk(dict(c, rt=0, mbs=3), [['chain', 1, None, 1], ['chain', 2, None, 1], ['chain', 1, None, 1],
                                            ['adv', 10], ['fin', 0], ['adv', 10], ['raise', 1, 4]]))
+    # every key has its own window: key 1 completes at 0, key 2 at 5; at 26 key 2's window (5 + 20) is over
+    # although less than retention_timeout passed since key 1's timer fired at 20
+    out.append(G.mk(c, [['call', 1, None], ['call', 2, None], ['yield', 0, 1, 'v', 3], ['adv', 5], ['yield', 0, 2, 'v', 4],
+                        ['adv', 16], ['call', 2, None], ['adv', 5], ['call', 2, None], ['call', 1, None], ['adv', 10],
+                        ['fin', 0], ['fin', 1]]))
     # the decorator form forwards retention_timeout
     out.append(G.mk(dict(c, deco=True), [['call', 1, None], ['adv', 10], ['yield', 0, 1, 'v', 5], ['adv', 19],
                                          ['call', 1, None], ['adv', 1], ['call', 1, None], ['adv', 10], ['fin', 1]]))
